@@ -14,8 +14,11 @@
      calc_list_denotes     a list of locations is the left fold of the operators (union, ~ x ^);
      calc_single, calc_N_eq_len_I, calc_largest_roundtrip;
      calc_parse_total      the calc-specific parsers are total on every NUL-terminated argument (never Oob).
-   Refuted on the faithful model (each replayed on the real tool, see
-   known_findings.txt): the classes [chain_ok] excludes. *)
+     calc_denotes_physical the same for physical indexes, forms X and X-Y;
+     calc_open_range_beyond_level_empty, calc_denotes_domain: after fix 01261ca [chain_ok] excludes only numbers
+                           that do not fit in an int.
+   Refuted on the faithful model (replayed on the real tool, see known_findings.txt): long->int truncation
+   of the typed numbers (assert / 2^32 iterations), physical all/odd/even/X-. *)
 From Coq Require Import List NArith ZArith Bool String.
 From HV Require Import Base.BSet Base.Bytes Gen.Tables Topo.Dump Topo.Obj Topo.Helpers Text.Calc Text.CalcProofs.
 Import ListNotations.
@@ -137,36 +140,69 @@ Theorem calc_largest_roundtrip : forall root fuel set l,
 Proof. exact largest_loop_union. Qed.
 Print Assumptions calc_largest_roundtrip.
 
-(* ================= what [chain_ok] excludes: refuted on the faithful model ================= *)
-(* "X-" with X beyond the level: documented meaning "all objects with index >= X" (none), the loop
-   runs 2^32-1 times (hwloc-calc -i pu:4 pu:5-) *)
-Theorem calc_open_range_iterations_refuted :
-  exists r w, r_amount r = -1 /\ r_wrap r = false /\ w < r_first r /\ loop_count r w = 4294967295.
-Proof. exists (RG 5 (-1) 1 false), 4. vm_compute. repeat split; discriminate. Qed.
+(* ================= the range classes repaired by fix 01261ca ================= *)
+(* (before the fix: "X-" beyond the level and "X-Y" with Y < X-1 looped ~2^32 times, "X:-1" hit the
+   assert(); corpus/c20/{open-range-beyond-hang,reversed-range-hang,negative-width-assert}.case) *)
 
-(* "X-Y" with Y < X-1 (pu:3-0): 2^32-2 iterations; and "3-1" is read as "3-" *)
-Theorem calc_reversed_range_refuted :
-  parse_range (cstr "3-0") 0 = Ok (Some (RG 3 (-2) 1 false), None)
-  /\ loop_count (RG 3 (-2) 1 false) 4 = 4294967294
-  /\ parse_range (cstr "3-1") 0 = parse_range (cstr "3-") 0.
+(* "X-" with X at or beyond the end of the level: no iteration at all, for every level width *)
+Theorem calc_open_range_beyond_level_empty : forall r w,
+  r_amount r = -1 -> 0 <= r_first r < 2147483648 -> w <= r_first r -> loop_count r w = 0.
+Proof. exact loop_count_open_beyond. Qed.
+Print Assumptions calc_open_range_beyond_level_empty.
+
+(* every range built from numbers that fit in an int (first, and first+amount, below 2^31; amount -1
+   only as the "to the end" marker without wrap-around) lies in the domain of calc_denotes, whatever the
+   width of the level: the hypothesis [chain_ok] now excludes only numbers an int cannot hold *)
+Theorem calc_denotes_domain : forall first amount wrap w,
+  0 <= w < 2147483648 -> 0 <= first < 2147483648 ->
+  (amount = -1 /\ wrap = false) \/ (0 <= amount /\ first + amount < 2147483648) ->
+  range_ok (mk_range first amount wrap) w.
+Proof. exact mk_range_ok. Qed.
+Print Assumptions calc_denotes_domain.
+
+(* reversed ranges and negative widths are rejected by the parser; "3-1" no longer means "3-" *)
+Example calc_reversed_and_negative_rejected :
+  parse_range (cstr "3-0") 0 = Ok (None, None) /\ parse_range (cstr "3-1") 0 = Ok (None, None)
+  /\ parse_range (cstr "0:-1") 0 = Ok (None, None) /\ parse_range (cstr "3-3") 0 = Ok (Some (RG 3 1 1 false), None)
+  /\ parse_chain nat ex_resolve 20 (cstr "0:-1") 0 = Ok (PChain CFail).
 Proof. vm_compute. repeat split. Qed.
 
-(* "X:-1": the assert() of hwloc_calc_append_object_range (hwloc-calc pu:0:-1 aborts) *)
-Theorem calc_negative_width_assert_refuted :
-  nul_terminated (cstr "0:-1") /\ parse_chain nat ex_resolve 20 (cstr "0:-1") 0 = Ok (PChain CAbort)
-  /\ forall acc, eval_chain nat ex_objs true None CAbort 1%nat (bs_of_N 15) (bs_of_N 1) acc = EAbortR.
+(* ================= what is still refuted on the faithful model ================= *)
+(* long -> int truncation of the numbers typed: "0:4294967295" still reaches the assert()
+   (hwloc-calc pu:0:4294967295 aborts), "0-4294967293" still iterates 2^32-2 times *)
+Theorem calc_int_truncation_refuted :
+  nul_terminated (cstr "0:4294967295")
+  /\ parse_chain nat ex_resolve 20 (cstr "0:4294967295") 0 = Ok (PChain CAbort)
+  /\ (forall acc, eval_chain nat ex_objs true None CAbort 1%nat (bs_of_N 15) (bs_of_N 1) acc = EAbortR)
+  /\ parse_range (cstr "0-4294967293") 0 = Ok (Some (RG 0 (-2) 1 false), None)
+  /\ loop_count (RG 0 (-2) 1 false) 4 = 4294967294.
 Proof.
-  split; [exact nul_terminated_cstr_0_colon_m1|split; [vm_compute; reflexivity|reflexivity]].
+  split; [exact nul_terminated_cstr_trunc|]. split; [vm_compute; reflexivity|]. split; [reflexivity|]. vm_compute. split; reflexivity.
 Qed.
 
-(* physical indexes: "all" enumerates 0..width-1 instead of the OS indexes present; two objects with OS
-   indexes 2 and 0 inside the parent: only the second is found (hwloc-calc -p pack:1.pu:all) *)
+(* ================= physical indexes ================= *)
+(* forms X and X-Y with -p/--pi: for every number of the interval the FIRST object inside the parent
+   carrying that OS index (hwloc(7): "the first object matching the given index is used"), at every
+   level of the chain, for all topologies *)
+Theorem calc_denotes_physical : forall (LV : Type) (objs : LV -> list cobj) (c : chain LV) lv rcs rns acc,
+  chain_ok_phys LV objs c lv rcs rns ->
+  exists ok, eval_chain LV objs false None c lv rcs rns acc = EAcc ok (union2 acc (denote_phys LV objs c lv rcs rns)).
+Proof. exact eval_chain_denotes_phys. Qed.
+Print Assumptions calc_denotes_physical.
+
+(* the keyword and open forms are refuted: "all" enumerates 0..width-1 instead of the OS indexes present;
+   two objects with OS indexes 2 and 0 inside the parent: only the second is found (hwloc-calc -p pack:1.pu:all) *)
 Definition ex_phys (lv : nat) : list cobj := [CO (bs_of_N 1) (bs_of_N 1) 2; CO (bs_of_N 2) (bs_of_N 1) 0]%N.
 Theorem calc_physical_all_refuted :
   eval_chain nat ex_phys false None (CEnd (RG 0 (-1) 1 false)) 0%nat (bs_of_N 3) (bs_of_N 1) empty2
     = EAcc true (bs_of_N 2, bs_of_N 1)
   /\ big_union osets (inside_objs (bs_of_N 3) (bs_of_N 1) (ex_phys 0)) = (bs_of_N 3, bs_of_N 1).
 Proof. vm_compute. split; reflexivity. Qed.
+
+Example calc_denotes_physical_non_vacuous :
+  chain_ok_phys nat ex_phys (CEnd (RG 0 3 1 false)) 0%nat (bs_of_N 3) (bs_of_N 1)
+  /\ eval_chain nat ex_phys false None (CEnd (RG 0 3 1 false)) 0%nat (bs_of_N 3) (bs_of_N 1) empty2 = EAcc true (bs_of_N 3, bs_of_N 1).
+Proof. split; [|vm_compute; reflexivity]. vm_compute. intuition (try discriminate; auto). Qed.
 
 (* with logical indexes the same request gives all the objects, as calc_denotes says *)
 Example calc_logical_all :
